@@ -79,6 +79,42 @@ func ruleF1(c *Ctx) {
 			c.ok("F1", key, ci.Pos(), bad == "", what, bad)
 		}
 	}
+	// each plugin gets its own full timeout: the context a request method hands to a relay is the request's own,
+	// not one whose deadline was started in the request method (shared by, or chained across, the plugins)
+	for _, f := range m.funcsInPkg(pkgAdapt) {
+		rn := recvNamed(f)
+		if rn == nil || tname(rn.Obj()) != "Adaptation" || len(f.Params) < 2 {
+			continue
+		}
+		relays := map[*ssa.Function]bool{}
+		for _, r := range requestRelays(m) {
+			relays[r] = true
+		}
+		for _, ci := range calls(f) {
+			g := m.callee(ci.Common())
+			if g == nil || !relays[g] || len(ci.Common().Args) < 2 {
+				continue
+			}
+			bad := ""
+			for _, src := range valueSources(ci.Common().Args[1], ci, 0) {
+				if src == ssa.Value(f.Params[1]) {
+					continue
+				}
+				if ex, ok := src.(*ssa.Extract); ok {
+					if w, ok := ex.Tuple.(*ssa.Call); ok {
+						if h := m.callee(w.Common()); h != nil && (h.String() == "context.WithTimeout" || h.String() == "context.WithDeadline") {
+							bad = "the context passed to the relay carries a deadline started in " + funcKey(f) + " (at " + c.pos(w.Pos()) + "): the plugins share one deadline, so a slow plugin uses up the time of the healthy ones after it — they fail with DeadlineExceeded at once, are dropped as faulty and their contributions are lost"
+							continue
+						}
+					}
+				}
+				if bad == "" {
+					bad = "the context passed to the relay is not the request's own context (" + src.String() + ")"
+				}
+			}
+			c.ok("F1", funcKey(f)+"/ctx/"+g.Name(), ci.Pos(), bad == "", funcKey(f)+" hands the request's own context to "+g.Name(), bad)
+		}
+	}
 }
 
 func ruleF2(c *Ctx) {
@@ -226,6 +262,31 @@ func ruleF3(c *Ctx) {
 		for _, t := range tests {
 			if b := fatalTail(m, f, t.NonNil, evIs, f.Params[0], isFatal, closeM); b != "" {
 				bad = b
+			}
+		}
+		// the only error a relay ever returns is the handler's: anything else (a sentinel for "connection gone", a
+		// wrapped error of its own) would be taken for a handler's veto by the request loop
+		if bad == "" {
+			nres := f.Signature.Results().Len()
+			for _, r := range returnsOf(f) {
+				for _, v := range returnValues(r, nres-1) {
+					if isNilConst(v) || evIs(v) {
+						continue
+					}
+					if hc, ok := v.(*ssa.Call); ok {
+						// the delegated classification (checked by fatalTail above)
+						deleg := false
+						for _, a := range hc.Call.Args {
+							if evIs(a) {
+								deleg = true
+							}
+						}
+						if deleg {
+							continue
+						}
+					}
+					bad = fmt.Sprintf("the relay returns an error of its own at %s (%s), not the handler's: the request loop treats every relay error as the plugin's veto, so the request fails and later plugins are skipped although no handler refused it", c.pos(r.Pos()), v)
+				}
 			}
 		}
 		c.ok("F3", f.Name(), call.Pos(), bad == "", what, bad)
